@@ -101,6 +101,8 @@ def case_to_coq(c, cleanup):
                 evs.append("(NDel %s %s %s)" % (KIND[r["kind"]], C.cq_str(r["ns"]), C.cq_str(r["name"])))
             elif e["op"] == "unlabel":
                 evs.append("(NUnlabel %s)" % C.cq_str(e["ns"]))
+            elif e["op"] == "gc":
+                continue        # GlobalConfiguration events exist only in the arb-gc classes (judged by S only)
             else:
                 evs.append("NDrain")
         obs = []
@@ -211,6 +213,13 @@ def judge(run, cases, res):
         fam[key] = fam.get(key, 0) + 1
         if c["fam"] == "hist" and c.get("fatal"):
             judge_fatal(run, c)
+        if c["fam"] == "nsl":
+            for k, o in enumerate(c["obs"]):
+                if o.get("panic"):
+                    run.failing({"kind": "panic", "fam": "nsl"}, [c], "the real lbc.sync panics while the queue drains (drain %d of case %d, class %s): %s; script %s"
+                                % (k, cid, c["class"], o["panic"], json.dumps(c["script"])[:400]), theorem="Files.Spec.spec_ok")
+            if c["class"].startswith("arb"):
+                agree = 1      # host arbitration is not part of the queue model (Arb family): these histories are judged by S only
         if c["fam"] == "hist":
             run.cov["events_validated"] = run.cov.get("events_validated", 0) + len(c["events"])
             for p in step_problems(c):
